@@ -1,14 +1,16 @@
+import re
 """C02 Content preservation (structural necessary conditions; see DESIGN.md section 3, C02)"""
 from . import genrules, textrules
 
 
 def run(chk):
     genrules.r01_dual(chk, rule="R02-dual", inc_rule="R02-dual-inc")
-    genrules.expansion_diffs(chk, "R02-shipped", lambda k: ("[stringify]" in k) or "PositionRestricted" in k or "Display" in k,
+    genrules.expansion_diffs(chk, "R02-shipped", lambda k: bool(re.search(r"\[[^\]]*\bstringify\b[^\]]*\]", k)) or "PositionRestricted" in k or "Display" in k,
                              "generated stringify/pos_restrict/Display items identical (canonical form) to the generator's output")
     r02_store(chk)
     textrules.r01_esc(chk, rule="R02-esc")
     textrules.r01_hex(chk, rule="R02-hex")
+    textrules.r01_hexfloat(chk, rule="R02-hexfloat")
     from . import writertab
     writertab.compare(chk, "R02-writer", floor=48)
     writertab.compare_ifdata(chk, "R02-ifdata-writer", floor=22)
